@@ -610,18 +610,24 @@ def run_cache_guard_sites(repo, task):
         items.append(dict(name=name, fn=fn, kind='G13', verdict=v, backend='ast', ms=0.0, note=note))
         if v == 'refuted':
             failures.append(dict(key=f'G:{name}', what=f'{name}: {note}', nofail=True, replay=dict(site=name, note=note)))
-    path = os.path.join(repo, 'static_frame/core/index_hierarchy.py')
+    target = task.get('cache_target', 'hierarchy')
+    modfile, classes, attrs, exempt, minimum = {
+        'hierarchy': ('index_hierarchy.py', ('IndexHierarchy', 'IndexHierarchyGO'), ('_blocks',), (), 30),
+        # a flat IndexGO keeps its label / position arrays stale while `_recache` is set (labels appended to `_labels_mutable` since the arrays were built)
+        'index': ('index.py', ('Index', 'IndexGO', '_IndexGOMixin'), ('_labels', '_positions'), ('__setstate__', '_update_array_cache', '__init__'), 30),
+    }[target]
+    path = os.path.join(repo, 'static_frame/core', modfile)
     tree = ast.parse(open(path).read())
     n = 0
 
     def is_self_attr(node, attr, ctx=None):
-        return isinstance(node, ast.Attribute) and node.attr == attr and isinstance(node.value, ast.Name) and node.value.id == 'self' and (ctx is None or isinstance(node.ctx, ctx))
+        return isinstance(node, ast.Attribute) and node.attr in attrs and isinstance(node.value, ast.Name) and node.value.id == 'self' and (ctx is None or isinstance(node.ctx, ctx))
 
     def leaves_or_refreshes(body):
         last = body[-1] if body else None
         return any('self._update_array_cache()' in ast.unparse(s) for s in body) or isinstance(last, (ast.Return, ast.Raise))
-    for cls in [c for c in tree.body if isinstance(c, ast.ClassDef) and c.name in ('IndexHierarchy', 'IndexHierarchyGO')]:
-        for fn in [f for f in cls.body if isinstance(f, ast.FunctionDef)]:
+    for cls in [c for c in tree.body if isinstance(c, ast.ClassDef) and c.name in classes]:
+        for fn in [f for f in cls.body if isinstance(f, ast.FunctionDef) and f.name not in exempt]:
             parents = {}
             for node in ast.walk(fn):
                 for ch in ast.iter_child_nodes(node):
@@ -630,13 +636,13 @@ def run_cache_guard_sites(repo, task):
             if not loads:
                 continue
             stores = [x.lineno for x in ast.walk(fn) if is_self_attr(x, '_blocks', ast.Store)]
-            q = f'index_hierarchy.py:{cls.name}.{fn.name}'
+            q = f'{modfile}:{cls.name}.{fn.name}'
             guards = [s for s in ast.walk(fn) if isinstance(s, ast.If) and ast.unparse(s.test) == 'self._recache' and leaves_or_refreshes(s.body)]
             for k, ld in enumerate(loads):
                 n += 1
-                name = f'{q}:blocks-read#{k}'
+                name = f'{q}:{ld.attr.strip("_")}-read#{k}'
                 if stores and min(stores) < ld.lineno:
-                    ob(name, True, f'L{ld.lineno}: the method assigns self._blocks first (L{min(stores)})', q)
+                    ob(name, True, f'L{ld.lineno}: the method assigns self.{ld.attr} first (L{min(stores)})', q)
                     continue
                 # (a) a guard statement that precedes the read and is not nested in a branch the read is outside of
                 ok = False
@@ -669,10 +675,15 @@ def run_cache_guard_sites(repo, task):
                 helper = any(isinstance(c_, ast.Call) and isinstance(c_.func, ast.Attribute) and isinstance(c_.func.value, ast.Name) and c_.func.value.id == 'self'
                              and 'cache' in c_.func.attr and c_.lineno <= ld.lineno for c_ in ast.walk(fn)) and not guards
                 other_guard = [ast.unparse(s.test) for s in ast.walk(fn) if isinstance(s, ast.If) and s.lineno < ld.lineno and any('_update_array_cache' in ast.unparse(b) for b in s.body)]
-                ob(name, False, f'L{ld.lineno}: self._blocks is read without a preceding test of self._recache' + (f' (refresh guarded by {other_guard} instead)' if other_guard else ''), q,
+                ob(name, False, f'L{ld.lineno}: self.{ld.attr} is read without a preceding test of self._recache' + (f' (refresh guarded by {other_guard} instead)' if other_guard else ''), q,
                    undecided=helper and not other_guard)
-    rep = dict(name=task['name'], status='ok' if n >= 30 else 'checker-fault', items=items, failures=failures, evaluations=0, distinct=0, rule='',
+    rep = dict(name=task['name'], status='ok' if n >= minimum else 'checker-fault', items=items, failures=failures, evaluations=0, distinct=0, rule='',
                samples=[dict(obligation=i['name'], verdict=i['verdict']) for i in items[:3]], trusted=[], assumptions=[], wall_s=round(time.time() - t0, 2))
-    if n < 30:
-        rep['detail'] = f'only {n} reads of self._blocks found in IndexHierarchy: the generator no longer matches the source layout'
+    if n < minimum:
+        rep['detail'] = f'only {n} reads of {attrs} found in {classes}: the generator no longer matches the source layout'
     return rep
+
+
+def run_index_cache_guard_sites(repo, task):
+    """G13 for the flat index classes (C02 / C04 / C09): every read of `self._labels` / `self._positions` is dominated by a test of `self._recache`"""
+    return run_cache_guard_sites(repo, dict(task, cache_target='index'))
